@@ -95,6 +95,7 @@ var errOpaque error
 var fmt = struct{ Errorf func(format string, a ...any) error }{}
 var errors = struct{ New func(text string) error }{}
 var io = struct{ EOF, ErrUnexpectedEOF error }{}
+var strings = struct{ HasSuffix func(s, suffix string) bool }{}
 
 `
 
@@ -207,6 +208,98 @@ func (b goCBC) CryptBlocks(dst, src []byte) {
 	copy(dst, rxExtern.cbcDecrypt(b.iv, src))
 }
 func (e alert) Error() string { return "" }
+`
+
+// cbStubs / codecWanted: the cryptobyte-based decoders.  `cryptobyte.String` is rewritten to the stub type
+// cbString, whose methods are written here statement by statement after x/crypto/cryptobyte/string.go —
+// with ONE deliberate difference: the library's `read` returns nil for failure and tests `v == nil`, which
+// also makes a zero-length read on a NIL String fail ((*s)[:0] of a nil slice is nil); the stub returns an
+// explicit flag, so a zero-length read always succeeds.  A String obtained from a successful read or from
+// non-nil data is never nil, so the difference can only show on `cryptobyte.String(nil)` / a zero String.
+var codecWanted = map[string][]string{
+	"tlcp": {"readUint8LengthPrefixed", "readUint16LengthPrefixed", "readUint24LengthPrefixed", "readUint64", "tlcpIsCompleteMessage",
+		"clientHelloMsg.unmarshal", "serverHelloMsg.unmarshal", "finishedMsg.unmarshal", "certificateVerifyMsg.unmarshal"},
+	"dtlcp": {"readUint8LengthPrefixed", "readUint16LengthPrefixed", "readUint24LengthPrefixed", "readUint64", "dtlcpIsCompleteMessage",
+		"dtlcpUnmarshalHeader", "clientHelloMsg.unmarshal", "serverHelloMsg.unmarshal", "helloVerifyRequestMsg.unmarshal",
+		"finishedMsg.unmarshal", "certificateVerifyMsg.unmarshal"},
+}
+
+const cbStubs = `
+type cbString []byte
+
+func (s *cbString) read(n int) ([]byte, bool) {
+	if len(*s) < n || n < 0 {
+		return nil, false
+	}
+	v := (*s)[:n]
+	*s = (*s)[n:]
+	return v, true
+}
+func (s *cbString) Skip(n int) bool {
+	_, ok := s.read(n)
+	return ok
+}
+func (s *cbString) ReadUint8(out *uint8) bool {
+	v, ok := s.read(1)
+	if !ok {
+		return false
+	}
+	*out = uint8(v[0])
+	return true
+}
+func (s *cbString) ReadUint16(out *uint16) bool {
+	v, ok := s.read(2)
+	if !ok {
+		return false
+	}
+	*out = uint16(v[0])<<8 | uint16(v[1])
+	return true
+}
+func (s *cbString) ReadUint24(out *uint32) bool {
+	v, ok := s.read(3)
+	if !ok {
+		return false
+	}
+	*out = uint32(v[0])<<16 | uint32(v[1])<<8 | uint32(v[2])
+	return true
+}
+func (s *cbString) ReadUint32(out *uint32) bool {
+	v, ok := s.read(4)
+	if !ok {
+		return false
+	}
+	*out = uint32(v[0])<<24 | uint32(v[1])<<16 | uint32(v[2])<<8 | uint32(v[3])
+	return true
+}
+func (s *cbString) readLengthPrefixed(lenLen int, outChild *cbString) bool {
+	lenBytes, ok := s.read(lenLen)
+	if !ok {
+		return false
+	}
+	var length uint32
+	for _, b := range lenBytes {
+		length = length << 8
+		length = length | uint32(b)
+	}
+	v, ok2 := s.read(int(length))
+	if !ok2 {
+		return false
+	}
+	*outChild = v
+	return true
+}
+func (s *cbString) ReadUint8LengthPrefixed(out *cbString) bool  { return s.readLengthPrefixed(1, out) }
+func (s *cbString) ReadUint16LengthPrefixed(out *cbString) bool { return s.readLengthPrefixed(2, out) }
+func (s *cbString) ReadUint24LengthPrefixed(out *cbString) bool { return s.readLengthPrefixed(3, out) }
+func (s *cbString) ReadBytes(out *[]byte, n int) bool {
+	v, ok := s.read(n)
+	if !ok {
+		return false
+	}
+	*out = v
+	return true
+}
+func (s cbString) Empty() bool { return len(s) == 0 }
 `
 
 // negStubs / negWanted: parameter negotiation (C01): version and ALPN selection over a view of Config
@@ -470,7 +563,7 @@ func synth(d *decls, pkgName string, fns []string) (*token.FileSet, *ast.File, *
 // rewriteDynCases re-parses one function and replaces the case types of its type switches by
 // the stub types that stand for them (dynCases)
 func rewriteDynCases(src string) string {
-	if !strings.Contains(src, ".(type)") && !strings.Contains(src, "io.ReadFull(") {
+	if !strings.Contains(src, ".(type)") && !strings.Contains(src, "io.ReadFull(") && !strings.Contains(src, "cryptobyte.String") {
 		return src
 	}
 	fset := token.NewFileSet()
@@ -478,6 +571,37 @@ func rewriteDynCases(src string) string {
 	if err != nil {
 		return src
 	}
+	// cryptobyte.String  ==>  cbString (the stub type of cbStubs)
+	var fix func(e *ast.Expr)
+	fix = func(e *ast.Expr) {
+		if se, ok := (*e).(*ast.SelectorExpr); ok {
+			if id, ok := se.X.(*ast.Ident); ok && id.Name == "cryptobyte" && se.Sel.Name == "String" {
+				*e = &ast.Ident{Name: "cbString", NamePos: se.Pos()}
+			}
+		}
+	}
+	ast.Inspect(f, func(n ast.Node) bool {
+		switch x := n.(type) {
+		case *ast.Field:
+			fix(&x.Type)
+		case *ast.StarExpr:
+			fix(&x.X)
+		case *ast.ValueSpec:
+			fix(&x.Type)
+		case *ast.CallExpr:
+			fix(&x.Fun)
+			for i := range x.Args {
+				fix(&x.Args[i])
+			}
+		case *ast.ParenExpr:
+			fix(&x.X)
+		case *ast.CompositeLit:
+			fix(&x.Type)
+		case *ast.ArrayType:
+			fix(&x.Elt)
+		}
+		return true
+	})
 	ast.Inspect(f, func(n ast.Node) bool {
 		// io.ReadFull(r, buf)  ==>  r.readFull(buf)   (the stub method that spells the library loop out)
 		if c, ok := n.(*ast.CallExpr); ok && len(c.Args) == 2 {
@@ -813,6 +937,12 @@ func (t *tr) leanType(ty types.Type) string {
 		if n, ok := u.Elem().(*types.Named); ok {
 			if _, ok := n.Underlying().(*types.Struct); ok && n.Obj().Pkg() == t.pkg {
 				return n.Obj().Name()
+			}
+		}
+		// an out-parameter `*T` (T a scalar or a slice): value in, value out
+		if _, isStruct := u.Elem().Underlying().(*types.Struct); !isStruct {
+			if _, isPtr := u.Elem().Underlying().(*types.Pointer); !isPtr {
+				return t.leanType(u.Elem())
 			}
 		}
 	}
@@ -1370,6 +1500,11 @@ func (t *tr) convert(to types.Type, arg ast.Expr) string {
 		if types.Identical(to.Underlying(), from.Underlying()) {
 			return t.expr(arg)
 		}
+		if tp, ok := to.Underlying().(*types.Pointer); ok {
+			if fp, ok := from.Underlying().(*types.Pointer); ok && types.Identical(tp.Elem().Underlying(), fp.Elem().Underlying()) {
+				return t.expr(arg)
+			}
+		}
 		isStr := func(x types.Type) bool {
 			b, ok := x.Underlying().(*types.Basic)
 			return ok && b.Info()&types.IsString != 0
@@ -1496,6 +1631,21 @@ func (t *tr) call(c *ast.CallExpr) string {
 		bad("call of %s, which is not translated", t.src(c.Fun))
 	}
 	if callee.mutRecv || len(callee.mutParam) > 0 {
+		if r := callee.resultsOf(); r != nil && r.NumFields() == 1 && callee.inner == nil {
+			// the effects become statements in front of the one being translated (inside the guarded
+			// block when this is the right operand of && / ||)
+			saved := t.pre
+			t.pre = nil
+			eo := &out{}
+			res, ok := t.effCall(eo, c)
+			if !ok {
+				bad("call of %s in expression position", callee.goName)
+			}
+			lines := strings.Split(strings.TrimRight(eo.b.String(), "\n"), "\n")
+			t.pre = append(saved, lines...)
+			t.actN++
+			return res[0]
+		}
 		bad("call of %s, which writes through a reference argument, in expression position", callee.goName)
 	}
 	s := callee.leanName
@@ -1535,6 +1685,8 @@ func (t *tr) externCall(c *ast.CallExpr) (string, bool) {
 				bad("hmac.New arity")
 			case "subtle.ConstantTimeCompare":
 				return "(Go.constantTimeCompare " + t.atom(c.Args[0]) + " " + t.atom(c.Args[1]) + ")", true
+			case "strings.HasSuffix":
+				return "(Go.hasSuffix " + t.atom(c.Args[0]) + " " + t.atom(c.Args[1]) + ")", true
 			case "fmt.Errorf", "errors.New":
 				return "(some Go.Error.other)", true
 			case "subtle.ConstantTimeSelect":
@@ -1661,6 +1813,12 @@ func (t *tr) retExpr(vals []string) string {
 // lvalue assignment: returns the Lean statement(s) for `lhs = rhs` where rhs is already Lean text
 func (t *tr) assign(o *out, lhs ast.Expr, rhs string) {
 	switch l := lhs.(type) {
+	case *ast.StarExpr:
+		t.assign(o, l.X, rhs)
+		return
+	case *ast.ParenExpr:
+		t.assign(o, l.X, rhs)
+		return
 	case *ast.Ident:
 		if l.Name == "_" {
 			return
@@ -1801,6 +1959,13 @@ func (t *tr) stmt(o *out, s ast.Stmt) {
 			}
 			if id, ok := x.Rhs[0].(*ast.Ident); ok && id.Name == "nil" {
 				t.assignOrDefine(o, x.Tok, x.Lhs[0], t.zero(t.typeOf(x.Lhs[0])))
+				return
+			}
+			if id, ok := x.Lhs[0].(*ast.Ident); ok && id.Name == "_" {
+				if _, isCall := x.Rhs[0].(*ast.CallExpr); !isCall {
+					return // `_ = x`: nothing to do
+				}
+				t.emit(o, "let _ := %s", t.expr(x.Rhs[0]))
 				return
 			}
 			t.assignOrDefine(o, x.Tok, x.Lhs[0], t.exprAs(x.Rhs[0], t.typeOf(x.Lhs[0])))
@@ -2065,15 +2230,10 @@ func (t *tr) effCall(o *out, c *ast.CallExpr) ([]string, bool) {
 		if idx < 0 || idx >= len(c.Args) {
 			bad("call %s: written parameter %s not found", t.src(c), mp)
 		}
-		arg := c.Args[idx]
-		for {
-			if pe, ok := arg.(*ast.ParenExpr); ok {
-				arg = pe.X
-				continue
-			}
-			break
-		}
+		arg := t.lvalOfArg(c.Args[idx])
 		switch a := arg.(type) {
+		case *ast.StarExpr:
+			t.assign(o, a, proj(k))
 		case *ast.SliceExpr:
 			lo, hi := "(0 : Int)", "(("+t.expr(a.X)+").length : Int)"
 			if a.Low != nil {
@@ -2096,6 +2256,30 @@ func (t *tr) effCall(o *out, c *ast.CallExpr) ([]string, bool) {
 		k++
 	}
 	return res, true
+}
+
+// lvalOfArg: the variable an argument designates: `&x`, `(*T)(&x)`, `(x)` are x
+func (t *tr) lvalOfArg(arg ast.Expr) ast.Expr {
+	for {
+		switch a := arg.(type) {
+		case *ast.ParenExpr:
+			arg = a.X
+			continue
+		case *ast.UnaryExpr:
+			if a.Op == token.AND {
+				arg = a.X
+				continue
+			}
+		case *ast.CallExpr:
+			if tv, ok := t.info.Types[a.Fun]; ok && tv.IsType() && len(a.Args) == 1 {
+				if _, isPtr := tv.Type.Underlying().(*types.Pointer); isPtr {
+					arg = a.Args[0]
+					continue
+				}
+			}
+		}
+		return arg
+	}
 }
 
 func (t *tr) callStmt(o *out, c *ast.CallExpr) {
@@ -2605,6 +2789,10 @@ func assignsThroughRecv(fd *ast.FuncDecl) bool {
 				e = x.X
 			case *ast.SliceExpr:
 				e = x.X
+			case *ast.StarExpr:
+				e = x.X
+			case *ast.ParenExpr:
+				e = x.X
 			case *ast.Ident:
 				return x.Name == rn
 			default:
@@ -2641,6 +2829,17 @@ func writtenSliceParams(t *tr, m *fnMeta, byName map[string]*fnMeta) []string {
 	body := m.bodyOf()
 	for _, fl := range m.paramLists() {
 		for _, p := range fl.List {
+			if _, isPtr := p.Type.(*ast.StarExpr); isPtr {
+				// an out-parameter `*T` (T not a struct) is always handed back
+				if pt, ok := t.info.Types[p.Type].Type.(*types.Pointer); ok {
+					if _, isStruct := pt.Elem().Underlying().(*types.Struct); !isStruct {
+						for _, nm := range p.Names {
+							outp = append(outp, mangle(nm.Name))
+						}
+					}
+				}
+				continue
+			}
 			if _, ok := p.Type.(*ast.ArrayType); !ok {
 				continue
 			}
@@ -2940,6 +3139,7 @@ func allGroups() []group {
 		gs = append(gs, group{pkg: name, stubs: viewStubs[name], funcs: wanted[name]})
 		gs = append(gs, group{pkg: name, sub: "rx", stubs: rxStubs, funcs: rxWanted[name]})
 		gs = append(gs, group{pkg: name, sub: "neg", stubs: negStubs, funcs: negWanted})
+		gs = append(gs, group{pkg: name, sub: "codec", stubs: cbStubs, funcs: codecWanted[name]})
 	}
 	return gs
 }
@@ -3192,7 +3392,7 @@ func translatePackage(repo string, g group, w *strings.Builder, untranslated *[]
 		for _, sp := range gd.Specs {
 			vs := sp.(*ast.ValueSpec)
 			for i, nm := range vs.Names {
-				if nm.Name == "_" || i >= len(vs.Values) || nm.Name == "hmac" || nm.Name == "sm3" || nm.Name == "sha256" || nm.Name == "subtle" || nm.Name == "rxExtern" || nm.Name == "errOpaque" || nm.Name == "fmt" || nm.Name == "errors" || nm.Name == "io" {
+				if nm.Name == "_" || i >= len(vs.Values) || nm.Name == "hmac" || nm.Name == "sm3" || nm.Name == "sha256" || nm.Name == "subtle" || nm.Name == "rxExtern" || nm.Name == "errOpaque" || nm.Name == "fmt" || nm.Name == "errors" || nm.Name == "io" || nm.Name == "strings" {
 					continue
 				}
 				obj := info.Defs[nm]
